@@ -597,3 +597,30 @@ Proof.
   destruct (parse_total_no_imports env 10000 globs (lex_files files) (lex inp) (length (lex inp) + 4) H (Nat.le_refl _))
     as [(bl & ->)|(e & ->)]; reflexivity.
 Qed.
+(* the largest number of tokens one glob answer of the world splices in *)
+Definition imp_len (files : list (N * option (list token))) (ids : list N) : Z :=
+  match import_files files ids with POk ts => Z.of_nat (length ts) | _ => 0 end.
+Fixpoint gmax (files : list (N * option (list token))) (globs : list ((N * bytes) * list N)) : Z :=
+  match globs with [] => 0 | (_, ids) :: r => Z.max (imp_len files ids) (gmax files r) end.
+Lemma gmax_bound files : forall globs f pat ids ts, lookup_g globs f pat = Some ids ->
+  import_files files ids = POk ts -> Z.of_nat (length ts) <= gmax files globs.
+Proof.
+  induction globs as [|[[f' p'] v] r IH]; simpl; intros f pat ids ts H Hi; [discriminate|].
+  destruct ((f' =? f)%N && beq p' pat).
+  - injection H as ->. unfold imp_len. rewrite Hi. lia.
+  - specialize (IH _ _ _ _ H Hi). lia.
+Qed.
+Definition world_fuel (maxi : N) (files : list (N * option (list token))) (globs : list ((N * bytes) * list N)) (n : nat) : nat :=
+  import_fuel maxi n (Z.max (Z.of_nat n) (gmax files globs)).
+Theorem parse_total_world env maxi globs files toks fuel :
+  (world_fuel maxi files globs (length toks) <= fuel)%nat ->
+  parse_tokens env maxi globs files fuel toks <> PFuel /\ parse_tokens env maxi globs files fuel toks <> PPanic.
+Proof.
+  intro Hf. apply parse_total_bounded_imports with (L0 := Z.max (Z.of_nat (length toks)) (gmax files globs)).
+  - lia.
+  - intros f pat ids ts Hg Hi. pose proof (gmax_bound files globs f pat ids ts Hg Hi). lia.
+  - exact Hf.
+Qed.
+(* with no import allowed (maxi = 0) the fuel is tokens + 4 for EVERY token list: every import directive is the too-many-imports error *)
+Lemma world_fuel_0 files globs n : world_fuel 0 files globs n = (n + 4)%nat.
+Proof. unfold world_fuel, import_fuel. simpl Z.of_N. change (2 ^ 0 - 1) with 0. rewrite Z.mul_0_r. simpl. lia. Qed.
